@@ -6,7 +6,7 @@
 // it traps a second thread entering while one is inside (CORRUPT) and can widen the window between two bytes.
 // What this driver shows is a SAMPLE of the real interleavings, never all of them.
 //
-// case:   <out|err> <c0,c1,...> <dist> <mode> <seed> [ord]
+// case:   <out|err> <c0,c1,...> <dist> <mode> <seed> [ord] [tsan]
 //   c_t   records logged by thread t (2..8 threads)          dist  z|s|m|l|x   payload length distribution
 //   mode  n plain | y yield between bytes | d dwell (the thread inside waits a little for a second one to come in)
 //   ord   append the observed order to an OK observation
@@ -243,8 +243,11 @@ bool read_num(const std::string& b, std::size_t& i, char term, unsigned long& v)
     return true;
 }
 
-std::string run_case(const std::vector<std::string>& w)
+std::string run_case(const std::vector<std::string>& w0)
 {
+    // a trailing word `tsan` only routes the case to the ThreadSanitizer build (props/C09.py)
+    std::vector<std::string> w = w0;
+    if (!w.empty() && w.back() == "tsan") w.pop_back();
     if (w.size() < 5 || w.size() > 6 || (w[0] != "out" && w[0] != "err") || w[2].size() != 1 || w[3].size() != 1)
         return "BADCASE";
     bool to_out = w[0] == "out";
